@@ -519,9 +519,7 @@ func (d Driver) Run(c *core.Ctx) error {
 	depth := c.Pick(10, 14)
 	num := c.Pick(150, 1500) // traces per worker; every successor at the last depth is emitted (~80 scenarios per trace)
 	run(tlc.Opts{Module: "Context", Config: cfg(depth, depth, "full", false), Simulate: fmt.Sprintf("num=%d", num), Depth: depth + 1, Seed: c.Seed, Workers: 8})
-	if c.Thorough() {
-		run(tlc.Opts{Module: "Context", Config: cfg(4, 4, "small", false), Timeout: 0})
-	}
+	// (the broad alphabet at depth 4 is 6.8 million histories: covered by the model-level run; replay uses depth 3)
 	c.Count(0, nontrivial, 0)
 
 	// 3. code -> spec: recorded traces of long random histories
@@ -604,7 +602,11 @@ func randCall(r *rand.Rand, theme int) Call {
 	case 2:
 		return Call{"Scale", []int{[]int{-1, 1, 2}[r.Intn(3)], []int{-1, 1, 2}[r.Intn(3)]}}
 	case 3:
-		return Call{"Shear", []int{ri(-1, 1), ri(-1, 1)}}
+		sx, sy := ri(-1, 1), ri(-1, 1)
+		if sx*sy == 1 { // singular
+			sy = 0
+		}
+		return Call{"Shear", []int{sx, sy}}
 	case 4:
 		return Call{"ReflectX", nil}
 	case 5:
@@ -616,7 +618,11 @@ func randCall(r *rand.Rand, theme int) Call {
 	case 8:
 		return Call{"ScaleAbout", []int{[]int{-1, 1, 2}[r.Intn(3)], []int{1, 2}[r.Intn(2)], ri(-2, 3), ri(-2, 3)}}
 	case 9:
-		return Call{"ShearAbout", []int{ri(-1, 1), ri(-1, 1), ri(-2, 3), ri(-2, 3)}}
+		sx, sy := ri(-1, 1), ri(-1, 1)
+		if sx*sy == 1 { // singular
+			sx = 0
+		}
+		return Call{"ShearAbout", []int{sx, sy, ri(-2, 3), ri(-2, 3)}}
 	case 10:
 		return Call{"ReflectXAbout", []int{ri(-2, 5)}}
 	case 11:
